@@ -94,6 +94,14 @@ def main():
     open(sp, "w").write(sel)
     open(tp, "w").write(tab)
     ov = {"Replace": {sel_path: sp, tab_path: tp}}
+    # map hash seeds (m.seed = uintptr(rand())): seeded too, so that maps with
+    # more than one group iterate in a reproducible order for value-typed keys
+    map_path = os.path.join(root, "src/internal/runtime/maps/map.go")
+    mp_src = open(map_path).read()
+    if mp_src.count("uintptr(rand())") >= 1:
+        mp = os.path.join(out, "map.go.txt")
+        open(mp, "w").write(mp_src.replace("uintptr(rand())", "uintptr(simrand())"))
+        ov["Replace"][map_path] = mp
     op = os.path.join(out, "overlay.json")
     json.dump(ov, open(op, "w"))
     print(op)
